@@ -47,6 +47,11 @@ def gen_case(seed, cfg, index=0):
         fws.append({"mod": f"fw_{tag}_{k}", "backends": bks})
     for n in ("numpy", "numpy.numpylike", "numpy.einsum"):
         regs.append(["numpy", n])
+    # one framework may be registered late, in the middle of the history (a third-party package imported after einx was used);
+    # nothing refers to its tensor type or names before that, so no stale memo can be involved
+    late = r.randrange(nfw) if r.random() < 0.3 else None
+    late_regs = [s for s in regs if s[0] == "register" and s[1] == late]
+    regs = [s for s in regs if not (s[0] == "register" and s[1] == late)]
     r.shuffle(regs)
     setup = []
     for s in regs:  # some modules are imported before (H) / before or in between (M) the registrations
@@ -59,8 +64,16 @@ def gen_case(seed, cfg, index=0):
     nops = r.randint(5, 60)
     imported = {s[1] for s in setup if s[0] == "import"}
     depth = 0
-    names = [b["name"] for f in fws for b in f["backends"]] + ["numpy", "numpy.numpylike", "numpy.einsum"]
-    for _ in range(nops):
+    all_names = [b["name"] for f in fws for b in f["backends"]] + ["numpy", "numpy.numpylike", "numpy.einsum"]
+    early_names = [b["name"] for k2, f in enumerate(fws) if k2 != late for b in f["backends"]] + ["numpy", "numpy.numpylike", "numpy.einsum"]
+    late_at = r.randrange(nops) if late is not None else -1
+    registered_late = late is None
+    for opn in range(nops):
+        if opn == late_at:
+            ops.extend(late_regs)
+            registered_late = True
+        names = all_names if registered_late else early_names
+        usable = sorted(k2 for k2 in imported if registered_late or k2 != late)
         c = r.random()
         if c < 0.14:
             k = r.randrange(nfw)
@@ -81,8 +94,8 @@ def gen_case(seed, cfg, index=0):
                     tensors.append("nd")
                 elif t < 0.5:
                     tensors.append("s:" + r.choice(SCALAR_KINDS))
-                elif imported:
-                    tensors.append(f"T:{r.choice(sorted(imported))}")
+                elif usable:
+                    tensors.append(f"T:{r.choice(usable)}")
                 else:
                     tensors.append("nd")
             a = r.random()
@@ -93,7 +106,7 @@ def gen_case(seed, cfg, index=0):
             else:
                 arg = {"obj": r.choice(names)}
             ops.append(["lookup", arg, tensors])
-    return {"seed": seed, "kind": kind, "frameworks": fws, "setup": setup, "ops": ops, "perm_seed": r.randrange(1 << 30)}
+    return {"seed": seed, "kind": kind, "frameworks": fws, "setup": setup, "ops": ops, "perm_seed": r.randrange(1 << 30), "late": late}
 
 
 def gen_e2e(seed, r):
@@ -176,6 +189,19 @@ def run_index(i, master, cfg):
     return res
 
 
+_REAL = {}
+
+
+def real_backends():
+    """numpy's three backend objects, obtained through the public lookup (a tree under test need not
+    have materialised them at import time)."""
+    if not _REAL:
+        for n in ("numpy", "numpy.numpylike", "numpy.einsum"):
+            _REAL[n] = seams.WORLD.einx.backend.get(n)
+        seams.reset_world(0)
+    return _REAL
+
+
 def _mk_scalar(kind):
     import numpy as np
 
@@ -190,14 +216,14 @@ def exec_case(case, cfg):
     B = seams.WORLD.B
     einx = seams.WORLD.einx
     seams.reset_world(case["seed"])
-    REAL = {b.name: b for b in seams.WORLD.initial_state.backends}
+    REAL = real_backends()
     fws = case["frameworks"]
     classes = [type(f"T{k}", (), {}) for k in range(len(fws))]
     is_scalar = lambda t: isinstance(t, float | int | bool | np.floating | np.integer | np.bool_)
     stats = {"ops": 0, "lookups": 0, "skipped_ops": 0, "materialisation_invariant_checked": 0}
     faults = {"F-factory-init": 0, "F-late-import": 0, "F-reg-order-permuted": 0}
     probes = {"lookup_after_memo_then_import": 0, "priority_tiebreak": 0, "ambiguous": 0, "with_stack_resolution": 0, "invalid_backend_selected": 0,
-              "lazy_materialised_by_lookup": 0, "scalars_only": 0, "known_class_seen": 0, "lookup_with_pending_imported_lazy_backend": 0}
+              "lazy_materialised_by_lookup": 0, "scalars_only": 0, "known_class_seen": 0, "lookup_with_pending_imported_lazy_backend": 0, "late_registration": 0}
     sigs = set()
     log = []
     bad = []  # (klass, detail, known_sig)
@@ -221,7 +247,14 @@ def exec_case(case, cfg):
                 reg.register(REAL[s[1]])
                 model.entries.append(dict(name=s[1], prio=REAL[s[1]].priority, cls=np.ndarray, healthy=True, module=None))
             else:
-                k, j = s[1], s[2]
+                register_one(reg, model, s[1], s[2], counting, eager)
+            if eager and s[0] == "import":
+                materialise(reg, fws[s[1]]["mod"])
+        return reg, model
+
+    def register_one(reg, model, k, j, counting, eager):
+        if True:
+            if True:
                 b = fws[k]["backends"][j]
                 cls = classes[k]
 
@@ -249,9 +282,6 @@ def exec_case(case, cfg):
                             faults["F-factory-init"] += 1
                         reg.register(B.InvalidBackend(b["name"], "bad", priority=b["prio"]))
                     model.entries.append(dict(name=b["name"], prio=b["prio"], cls=cls, healthy=b["healthy"], module=None))
-            if eager and s[0] == "import":
-                materialise(reg, fws[s[1]]["mod"])
-        return reg, model
 
     deferred = {}
 
@@ -313,6 +343,7 @@ def exec_case(case, cfg):
         if any(b[2] is None for b in bad):
             return _finish(case, stats, faults, probes, sigs, log, bad)
         late_seen = {"main": False, "permuted-order twin": False}
+        late_pending = [sum(1 for o in case["ops"] if o[0] == "register")]
         held = {}
         ctx = []
         lookups_done = []
@@ -347,6 +378,18 @@ def exec_case(case, cfg):
                 model.imported.add(mod)
                 materialise(eager, mod)
                 log.append(["import", op[1]])
+            elif op[0] == "register":
+                k, j = op[1], op[2]
+                if any(e["name"] == fws[k]["backends"][j]["name"] for e in model.entries):
+                    stats["skipped_ops"] += 1  # already registered (only after shrinking)
+                    continue
+                throwaway = Model()
+                register_one(twin, throwaway, k, j, False, False)
+                register_one(eager, throwaway, k, j, False, True)
+                register_one(reg, model, k, j, True, False)
+                late_pending[0] -= 1
+                probes["late_registration"] += 1
+                log.append(["register", k, j])
             elif op[0] == "enter":
                 name = op[1]
                 exp, _ = model.resolve({"name": name}, [], is_scalar)
@@ -381,6 +424,10 @@ def exec_case(case, cfg):
                 _, arg, tspec = op
                 if arg is not None and "obj" in arg and arg["obj"] not in held:
                     stats["skipped_ops"] += 1
+                    continue
+                registered_fw = {k2 for k2, f2 in enumerate(fws) if any(e["name"] == f2["backends"][0]["name"] or any(e["name"] == b2["name"] for b2 in f2["backends"]) for e in model.entries)}
+                if any(t.startswith("T:") and int(t[2:]) not in registered_fw for t in tspec):
+                    stats["skipped_ops"] += 1  # the framework of that tensor is not registered yet (only after shrinking)
                     continue
                 if any(t.startswith("T:") and fws[int(t[2:])]["mod"] not in model.imported for t in tspec):
                     stats["skipped_ops"] += 1  # a tensor cannot exist before its module (only after shrinking)
@@ -460,7 +507,7 @@ def exec_case(case, cfg):
                         probes["invalid_backend_selected"] += 1
                     if ok1 != healthy or ok2 != healthy:
                         bad.append(("health", f"op {opi}: backend {obj.name} healthy={healthy} but use raised={not ok1}/{not ok2}", None))
-                lookups_done.append((arg, tspec, stack_names, set(model.imported)))
+                lookups_done.append((arg, tspec, stack_names, set(model.imported), late_pending[0]))
             # invariant: with-stack equals the model's (in every registry)
             for w, r_ in regs.items():
                 st = [b.name for b in r_.state.use_stack]
@@ -477,9 +524,10 @@ def exec_case(case, cfg):
                 objs = ctx.pop()
                 for w, r_ in regs.items():
                     B.Use(objs[w], r_).__exit__(None, None, None)
-            fresh, _ = build(regs_only, counting=False)  # all modules already in sys.modules: registrations materialise at once
-            for n, (arg, tspec, stack_names, imp) in enumerate(lookups_done):
-                if stack_names or imp != model.imported or (arg is not None and "obj" in arg):
+            done_regs = [o for o in case["ops"] if o[0] == "register" and any(e["name"] == fws[o[1]]["backends"][o[2]]["name"] for e in model.entries)]
+            fresh, _ = build(regs_only + done_regs, counting=False)  # all modules already in sys.modules: registrations materialise at once
+            for n, (arg, tspec, stack_names, imp, pending_regs) in enumerate(lookups_done):
+                if stack_names or imp != model.imported or pending_regs != late_pending[0] or (arg is not None and "obj" in arg):
                     continue
                 tensors = mk_tensors(tspec)
                 judge("main", reg, arg, tspec, tensors, [], f"L{n} (repeated at the end of the history)", strict=False)
